@@ -51,10 +51,10 @@ PRIMS = ["echo", "store", "find", "get", "move", "nAction", "nCreate", "nDelete"
 MARKER_FL = ["9.9.9"]  # the handler's own FailedSOPInstanceUIDList
 REQ_CLASS = "1.2.840.10008.5.1.4.1.2.1.1"
 REQ_INST = "1.2.4.77777"
-OUTCOMES = ["su", "wa", "wa2", "wa3", "fa", "fa2", "fa3", "ex", "ex2", "ex3", "ex4", "ca"]
+OUTCOMES = ["su", "wa", "wa2", "wa3", "fa", "fa2", "fa3", "ex", "ex2", "ex3", "ex4", "ex5", "ca"]
 OUTCOME_CLASS = {
     "su": "su", "wa": "wa", "wa2": "wa", "wa3": "wa", "fa": "fa", "fa2": "fa", "fa3": "fa",
-    "ex": "ex", "ex2": "ex", "ex3": "ex", "ex4": "ex", "ca": "ca",
+    "ex": "ex", "ex2": "ex", "ex3": "ex", "ex4": "ex", "ex5": "ex", "ca": "ca",
 }
 
 
@@ -240,7 +240,7 @@ def store_status(outcome):
         "ex3": 0xFF00,  # not in STORAGE_SERVICE_CLASS_STATUS -> KeyError
         "ex4": 0x0002,  # unknown code -> KeyError
     }.get(outcome)
-    if outcome == "ex":
+    if outcome in ("ex", "ex5"):
         raise RuntimeError("scripted sub-operation failure")
     if outcome == "ex2":
         return ds  # send_c_store returns an empty Dataset on timeout / invalid response
@@ -273,6 +273,12 @@ class StubStoreAssoc:
         if "SOPInstanceUID" in dataset:
             uid = int(str(dataset.SOPInstanceUID).rsplit(".", 1)[1])
         env.subops.append((uid, outcome))
+        if outcome == "ex5":
+            # the sub-operation association is lost (destination aborted / connection dropped): the real
+            # Association.send_c_store raises RuntimeError and is_established stays False from then on
+            self.is_established = False
+        if not self.is_established:
+            raise RuntimeError("scripted: the association with the destination is no longer established")
         return store_status(outcome)
 
     def release(self):
@@ -555,6 +561,7 @@ def run_scp(svc, handler, msg_id=7, cx_id=3, req_has_inst=True):
     from pynetdicom.presentation import build_context
 
     env = Env()
+    handler = normalise_lost(handler, svc["op"] == "scp.move")
     h = make_handler(handler, env)
     assoc = StubAssoc(env, svc["prim"], h, svc["event"])
     service = svc["cls"](assoc)
@@ -581,8 +588,31 @@ def run_scp(svc, handler, msg_id=7, cx_id=3, req_has_inst=True):
     }
 
 
+def normalise_lost(handler, move):
+    """`ex5` = the sub-operation association is lost.  C-MOVE: every later sub-operation fails the same way (the
+    stub, like the real Association, stays not-established); C-GET stores over the request's own association, where
+    a loss is the whole association's abort (an association event), so `ex5` is just an exception there."""
+    if not (isinstance(handler, list) and handler and handler[0] == "gen"):
+        return handler
+    lost = False
+    out = [handler[0]]
+    for it in handler[1:]:
+        if isinstance(it, list) and len(it) >= 2 and isinstance(it[1], list) and it[1] and it[1][0] == "p" and len(it[1]) == 4:
+            o = it[1][3]
+            if not move:
+                o = "ex" if o == "ex5" else o
+            elif lost:
+                o = "ex5"
+            elif o == "ex5":
+                lost = True
+            it = [it[0], [it[1][0], it[1][1], it[1][2], o]] + list(it[2:])
+        out.append(it)
+    return out
+
+
 def model_request(svc, table, handler, msg_id=7, cx_id=3, req_has_inst=True):
     op = svc["op"]
+    handler = normalise_lost(handler, op == "scp.move")
     if op == "scp.n":
         return [op, svc["prim"], table, cx_id, msg_id, req_has_inst, handler]
     if op in ("scp.store", "scp.echo", "scp.find", "scp.rp", "scp.get", "scp.move"):
@@ -810,7 +840,7 @@ class BGen:
         if x < 0.82:
             return r.choice(["fa", "fa2", "fa3"])
         if x < 0.97 or quantified_only:
-            return r.choice(["ex", "ex2", "ex3", "ex4"])
+            return r.choice(["ex", "ex2", "ex3", "ex4", "ex5"])
         return "ca"
 
     # -- values / items
